@@ -284,4 +284,137 @@ theorem cli_cases (m : Manifest) (data rk : Bytes) :
             Bool.false_eq_true]
           rfl
 
+/-! ### manifests that arrive without the chunk (ingest_manifest, admitted announces) and a held chunk -/
+
+/-- (T) the repaired tree: both paths consult `manifest_keeps_held_chunk_readable` -/
+theorem guard_ingest (st : NodeState) (m : Manifest) : guardPasses C11.ingestGuard st m = keepsHeldChunkReadable st m := rfl
+theorem guard_announce (st : NodeState) (m : Manifest) : guardPasses C11.announceGuard st m = keepsHeldChunkReadable st m := rfl
+
+theorem lookup_filter_ne {β : Type} (l : List (Bytes × β)) (k k' : Bytes) (h : k' ≠ k) :
+    List.lookup k' (l.filter fun e => e.1 != k) = List.lookup k' l := by
+  induction l with
+  | nil => rfl
+  | cons e rest ih =>
+    obtain ⟨a, b⟩ := e
+    by_cases ha : a = k
+    · subst ha
+      have h1 : ((a, b).1 != a) = false := by simp
+      have h2 : (k' == a) = false := by simpa using h
+      rw [List.filter_cons, if_neg (by simp [h1]), List.lookup_cons, h2, ih]
+    · have h1 : ((a, b).1 != k) = true := by simpa using ha
+      rw [List.filter_cons, if_pos h1, List.lookup_cons, List.lookup_cons, ih]
+
+theorem find_upsert_ne {β : Type} (l : List (Bytes × β)) (k k' : Bytes) (v : β) (h : k' ≠ k) :
+    find (upsert l k v) k' = find l k' := by
+  unfold find upsert
+  have h2 : (k' == k) = false := by simpa using h
+  rw [List.lookup_cons, h2]
+  exact lookup_filter_ne l k k' h
+
+/-- the node holds `record` for `id` and `fetch_chunk` reads it with key `k` -/
+def KeyedBy (st : NodeState) (id : Bytes) (record : Record) (k : List Nat) : Prop :=
+  find st.chunks id = some record ∧ record.encrypted = true ∧
+  ∃ shards threshold, shardSource st id = some (shards, threshold) ∧ Shamir.combine shards threshold = .ok k
+
+theorem fetchChunk_keyed {st : NodeState} {id : Bytes} {record : Record} {k : List Nat} (h : KeyedBy st id record k)
+    (rk : Bytes) :
+    fetchChunk st id rk = .value (ChaCha20.decrypt_with_key (ofNats k) id record.data record.nonce rk) := by
+  obtain ⟨h1, h2, shards, thr, h3, h4⟩ := h
+  unfold fetchChunk
+  simp only [h1, h2, if_true, h3, h4, pick_fetchId, pick_fetchData, pick_fetchNonce]
+
+theorem shardSource_of_table (st : NodeState) (id : Bytes) (sr : ShardRecord) (h : find st.shardTable id = some sr)
+    (h1 : 0 < sr.threshold) (h2 : sr.threshold ≤ sr.shards.length) :
+    shardSource st id = some (sr.shards, sr.threshold) := by
+  unfold shardSource
+  simp only [h, gt_iff_lt, h1, ge_iff_le, h2, and_self, if_true]
+
+theorem shardSource_congr (st st' : NodeState) (id : Bytes) (h1 : find st'.shardTable id = find st.shardTable id)
+    (h2 : find st'.manifests id = find st.manifests id) : shardSource st' id = shardSource st id := by
+  unfold shardSource
+  rw [h1, h2]
+
+/-- adopting a manifest that passed the guard does not change the key any held chunk is read with -/
+theorem adopt_keeps_key (st : NodeState) (m : Manifest) (ttl : Int) (id : Bytes) (record : Record) (k : List Nat)
+    (hv : m.threshold > 0 ∧ m.shards.length ≥ m.threshold) (hk : KeyedBy st id record k)
+    (hg : keepsHeldChunkReadable st m = true) : KeyedBy (adoptManifest st m ttl) id record k := by
+  obtain ⟨h1, h2, shards, thr, h3, h4⟩ := hk
+  by_cases hid : id = m.chunkId
+  · subst hid
+    refine ⟨h1, h2, m.shards, m.threshold, ?_, ?_⟩
+    · exact shardSource_of_table _ _ { shards := m.shards, threshold := m.threshold, totalShares := m.totalShares, ttl := ttl }
+        (find_upsert _ _ _) hv.1 hv.2
+    · unfold keepsHeldChunkReadable at hg
+      simp only [h1, h2, Bool.not_true, Bool.false_eq_true, if_false, h3, h4, Bool.and_eq_true] at hg
+      have hg2 := hg.2
+      cases hc : Shamir.combine m.shards m.threshold with
+      | ok k' =>
+        rw [hc] at hg2
+        simp only [beq_iff_eq] at hg2
+        rw [hg2]
+      | invalidArgument => rw [hc] at hg2; simp at hg2
+      | hang => rw [hc] at hg2; simp at hg2
+  · refine ⟨h1, h2, shards, thr, ?_, h4⟩
+    rw [shardSource_congr st (adoptManifest st m ttl) id (find_upsert_ne _ _ _ _ hid) (find_upsert_ne _ _ _ _ hid)]
+    exact h3
+
+theorem ingest_keeps_key (cfg : Config) (st : NodeState) (now : Int) (d : Option Manifest) (id : Bytes) (record : Record)
+    (k : List Nat) (hk : KeyedBy st id record k) : KeyedBy (ingestManifest cfg st now d).1 id record k := by
+  unfold ingestManifest
+  cases d with
+  | none => exact hk
+  | some m =>
+    simp only
+    split
+    · exact hk
+    · rename_i hv
+      have hv' : m.threshold > 0 ∧ m.shards.length ≥ m.threshold := by
+        by_contra hn; exact hv hn
+      split
+      · exact hk
+      · rw [guard_ingest]
+        split
+        · rename_i hg
+          exact adopt_keeps_key st m _ id record k hv' hk hg
+        · exact hk
+
+theorem announce_keeps_key (cfg : Config) (st : NodeState) (now : Int) (m : Manifest) (id : Bytes) (record : Record)
+    (k : List Nat) (hk : KeyedBy st id record k) : KeyedBy (announceAdmitted cfg st now m) id record k := by
+  unfold announceAdmitted
+  split
+  · exact hk
+  · rename_i hv
+    have hv' : m.threshold > 0 ∧ m.shards.length ≥ m.threshold := by
+      by_contra hn; exact hv hn
+    split
+    · exact hk
+    · rw [guard_announce]
+      split
+      · rename_i hg
+        exact adopt_keeps_key st m _ id record k hv' hk hg
+      · exact hk
+
+/-- after `store_chunk` the chunk is held and read with the chunk key -/
+theorem keyed_after_store (cfg : Config) (h1 : cfg.shardThreshold < 2 ^ C11.kShardCountBits)
+    (h2 : cfg.shardTotal < 2 ^ C11.kShardCountBits) (st : NodeState) (wallNowNs : Int) (id payload : Bytes) (ttl : Int)
+    (key nonce rk : Bytes) (hk : key.length = 32) (rd : Nat → Nat) (shares : List Shamir.Share)
+    (hs : Shamir.split rd (toNats key) (effThreshold cfg) (effTotal cfg) = .ok shares) :
+    KeyedBy (nodeAfterStore cfg st wallNowNs id payload ttl key nonce rk shares) id (recordOf cfg id payload ttl key nonce rk)
+      (toNats key) := by
+  obtain ⟨b1, b2, _⟩ := eff_bounds cfg h1 h2
+  obtain ⟨shares', hs', hlen, _⟩ := split_facts cfg h1 h2 key rd
+  rw [hs] at hs'; cases hs'
+  refine ⟨find_upsert _ _ _, rfl, shares, effThreshold cfg, ?_, combine_stored cfg h1 h2 key hk rd shares hs⟩
+  exact shardSource_of_table _ _
+    { shards := shares, threshold := effThreshold cfg, totalShares := effTotal cfg, ttl := sanitizedTtl cfg ttl }
+    (find_upsert _ _ _) (by show 0 < effThreshold cfg; omega) (by show effThreshold cfg ≤ shares.length; omega)
+
+/-- after an accepted replica the chunk is held and read with the key the manifest's shares give -/
+theorem keyed_after_accept (st : NodeState) (m : Manifest) (ttl : Int) (ct : Bytes) (keyN : List Nat)
+    (h1 : 0 < m.threshold) (h2 : m.threshold ≤ m.shards.length) (hc : Shamir.combine m.shards m.threshold = .ok keyN) :
+    KeyedBy (acceptEffects st m ttl ct) m.chunkId { data := ct, nonce := m.nonce, encrypted := true, ttl := ttl } keyN := by
+  refine ⟨find_upsert _ _ _, rfl, m.shards, m.threshold, ?_, hc⟩
+  exact shardSource_of_table _ _ { shards := m.shards, threshold := m.threshold, totalShares := m.totalShares, ttl := ttl }
+    (find_upsert _ _ _) h1 h2
+
 end EphVerif.C11L
